@@ -163,6 +163,43 @@ def c05_expect(ftype, src, valid, how="setattr"):
     return r
 
 
+def c05_naive_own_class(how="assign"):
+    import datetime
+
+    from flow.record import RecordDescriptor
+
+    D = RecordDescriptor("c05/rec", [("datetime", "x"), ("datetime[]", "xs"), ("varint", "n")])
+    rec = D(x=datetime.datetime(2020, 1, 2, 3, 4, 5, tzinfo=datetime.timezone(datetime.timedelta(hours=2))), n=1)
+    naive = rec.x.replace(tzinfo=None)
+    if how == "assign":
+        rec.x = naive
+        v = rec.x
+    elif how == "replace-copy":
+        v = rec._replace(x=naive).x
+    else:
+        rec.xs = [naive]
+        v = rec.xs[0]
+    bad = v.tzinfo is None
+    return {"violates": bad, "detail": f"the field holds a {type(v).__name__} without time zone: {v!r} (tzinfo {v.tzinfo!r})" if bad else None}
+
+
+def c05_nonintegral(ftype, src, must_reject=False):
+    from flow.record import RecordDescriptor
+
+    rec = RecordDescriptor("c05/rec", [(ftype, "x"), ("varint", "n")])(n=1)
+    v = float(src)
+    try:
+        rec.x = [v] if ftype.endswith("[]") else v
+    except Exception:
+        return {"violates": False, "outcome": "rejected"}
+    stored = rec.x[0] if ftype.endswith("[]") else rec.x
+    packed = stored._pack() if hasattr(stored, "_pack") else stored
+    if must_reject:
+        return {"violates": True, "detail": f"{ftype} accepted {src} (holds {stored!r}, written as {packed!r}): a value the type cannot represent"}
+    ok = isinstance(packed, (int, bool)) and not isinstance(packed, float) and packed == int(v) and int(stored) == int(v)
+    return {"violates": not ok, "detail": None if ok else f"{ftype} accepted {src} and holds {stored!r}, which is written as {packed!r} ({type(packed).__name__}): neither converted to an integer nor rejected"}
+
+
 def c05_cross_value(src_type, dst_type, x):
     """a field value of one integer type (taken from another record) offered to a field of another integer type: the target's range decides"""
     from flow.record import RecordDescriptor
@@ -391,4 +428,4 @@ def c05_cross_types(seed, n):
     return {"violates": False, "cases": cases}
 
 
-CALLS = {"c05_json_writable": c05_json_writable, "c05_cross_value": c05_cross_value, "c05_assign": c05_assign, "c05_expect": c05_expect, "c05_range": c05_range, "c05_outcome": c05_outcome, "c05_cross_types": c05_cross_types, "c05_digest": c05_digest, "c05_legacy_list": c05_legacy_list, "c05_list_pair": c05_list_pair, "c05_init": c05_init, "c05_replace": c05_replace, "c05_capture": c05_capture, "c05_decode": c05_decode}
+CALLS = {"c05_naive_own_class": c05_naive_own_class, "c05_nonintegral": c05_nonintegral, "c05_json_writable": c05_json_writable, "c05_cross_value": c05_cross_value, "c05_assign": c05_assign, "c05_expect": c05_expect, "c05_range": c05_range, "c05_outcome": c05_outcome, "c05_cross_types": c05_cross_types, "c05_digest": c05_digest, "c05_legacy_list": c05_legacy_list, "c05_list_pair": c05_list_pair, "c05_init": c05_init, "c05_replace": c05_replace, "c05_capture": c05_capture, "c05_decode": c05_decode}
